@@ -389,64 +389,91 @@ def gen_combo(rng, cfg, kind):
 
 
 def gen_mix(rng, cfg):
-    """two decisions with different partitions in one expression; optimum from a direct reference LP"""
+    """two or three decisions with different partitions in one expression (built in a random association and operator
+    form); optimum from a direct reference LP"""
     S = rng.randint(2, 5)
     labels, intlab = gen_labels(rng, S)
     u = rng.sample([0.5, 1.25, 2.0, 2.75, 3.5, 4.25, 5.0], S)
     praw = rng.sample([1, 2, 3, 4, 5, 6, 7], S)
     p = [x / sum(praw) for x in praw]
+    nd = rng.choice([2, 2, 3])
+    names = ['x%d' % (i + 1) for i in range(nd)]
     ops = [{'op': 'model', 'id': 'm', 'kind': 'dro', 'scens': S if intlab else labels},
-           {'op': 'rvar', 'id': 'z', 'm': 'm', 'shape': []},
-           {'op': 'dvar', 'id': 'x1', 'm': 'm'}, {'op': 'dvar', 'id': 'x2', 'm': 'm'},
-           {'op': 'amb', 'id': 'F', 'm': 'm'}]
+           {'op': 'rvar', 'id': 'z', 'm': 'm', 'shape': []}]
+    ops += [{'op': 'dvar', 'id': nm, 'm': 'm'} for nm in names]
+    ops.append({'op': 'amb', 'id': 'F', 'm': 'm'})
     for s in range(S):
         sc = labels[s] if intlab else {'loc': labels[s]}
         ops.append({'op': 'supp', 'amb': 'F', 'scen': sc,
                     'set': [['>=', ['v', 'z'], ['c', u[s] - 1.0]], ['<=', ['v', 'z'], ['c', u[s]]]]})
     ops.append({'op': 'prob', 'amb': 'F', 'set': [['==', ['v', 'm.p'], ['c', p]]]})
-    p1, p2 = RefPartition(S), RefPartition(S)
+    parts = [RefPartition(S) for _ in names]
     calls = []
-    for positions in gen_partition_calls(rng, S):
-        p1.adapt(positions)
-        calls.append(_adapt_scen_op(rng, ['v', 'x1'], labels, intlab, positions, 'F'))
-    for positions in gen_partition_calls(rng, S):
-        p2.adapt(positions)
-        calls.append(_adapt_scen_op(rng, ['v', 'x2'], labels, intlab, positions, 'F'))
+    for nm, rp in zip(names, parts):
+        for positions in gen_partition_calls(rng, S):
+            rp.adapt(positions)
+            calls.append(_adapt_scen_op(rng, ['v', nm], labels, intlab, positions, 'F'))
     rng.shuffle(calls)
     ops += calls
-    w1, w2 = float(rng.randint(1, 3)), float(rng.randint(1, 3))
-    ops += [{'op': 'cons', 'id': 'c1', 'e': ['>=', ['+', ['v', 'x1'], ['v', 'x2']], ['v', 'z']]},
-            {'op': 'cons', 'id': 'c2', 'e': ['>=', ['v', 'x1'], ['c', 0.0]]},
-            {'op': 'cons', 'id': 'c3', 'e': ['>=', ['v', 'x2'], ['c', 0.0]]},
-            {'op': 'obj', 'm': 'm', 'how': 'minsup',
-             'e': ['E', ['+', ['*', ['c', w1], ['v', 'x1']], ['*', ['c', w2], ['v', 'x2']]]], 'amb': 'F'},
-            {'op': 'st', 'm': 'm', 'ids': ['c1', 'c2', 'c3']}]
-    e1, e2 = p1.partition(), p2.partition()
-    return {'kind': 'mix', 'ops': ops, 'labels': labels, 'intlab': intlab, 'S': S, 'u': u, 'p': p,
-            'expect': {'p1': e1, 'p2': e2, 'w': [w1, w2]}, 'pool': ['def', 'lpg', 'ort', 'grb', 'eco']}
+    ws = [float(rng.randint(1, 3)) for _ in names]
+
+    def term(nm):
+        f = rng.randrange(5)
+        v = ['v', nm]
+        return v if f < 2 else ['*', ['c', 1.0], v] if f == 2 else ['*', v, ['c', 1.0]] if f == 3 else ['neg', ['neg', v]]
+
+    def plus(a, b):
+        return ['+', a, b] if rng.random() < 0.7 else ['-', a, ['neg', b]]
+    order = list(names)
+    rng.shuffle(order)
+    ts = [term(nm) for nm in order]
+    if len(ts) == 3 and rng.random() < 0.5:
+        tot = plus(ts[0], plus(ts[1], ts[2]))           # right association: the second refinement is computed first
+    else:
+        tot = ts[0]
+        for t in ts[1:]:
+            tot = plus(tot, t)
+    cf = rng.randrange(3)
+    c1 = ['>=', tot, ['v', 'z']] if cf == 0 else ['<=', ['v', 'z'], tot] if cf == 1 else ['>=', ['-', tot, ['v', 'z']], ['c', 0.0]]
+    obj = ['*', ['c', ws[0]], ['v', names[0]]]
+    for w_, nm in zip(ws[1:], names[1:]):
+        obj = ['+', obj, ['*', ['c', w_], ['v', nm]]]
+    ops.append({'op': 'cons', 'id': 'c1', 'e': c1})
+    ops += [{'op': 'cons', 'id': 'b%d' % i, 'e': ['>=', ['v', nm], ['c', 0.0]]} for i, nm in enumerate(names)]
+    ops += [{'op': 'obj', 'm': 'm', 'how': 'minsup', 'e': ['E', obj], 'amb': 'F'},
+            {'op': 'st', 'm': 'm', 'ids': ['c1'] + ['b%d' % i for i in range(nd)]}]
+    es = [rp.partition() for rp in parts]
+    return {'kind': 'mix', 'ops': ops, 'labels': labels, 'intlab': intlab, 'S': S, 'u': u, 'p': p, 'names': names,
+            'expect': {'parts': es, 'p1': es[0], 'p2': es[1], 'w': ws}, 'pool': ['def', 'lpg', 'ort', 'grb', 'eco']}
+
+
+def _mix_parts(case):
+    ex = case['expect']
+    return ex.get('parts') or [ex['p1'], ex['p2']]
 
 
 def mix_reference(case):
     """direct LP over the per-event values (no RSOME involved)"""
     from scipy.optimize import linprog
     lp = W.REAL.get('linprog', linprog)
-    e1, e2 = case['expect']['p1'], case['expect']['p2']
-    w1, w2 = case['expect']['w']
+    es = _mix_parts(case)
+    ws = case['expect']['w']
     S, u, p = case['S'], case['u'], case['p']
-    n1, n2 = len(e1), len(e2)
-    idx1 = {s: k for k, e in enumerate(e1) for s in e}
-    idx2 = {s: k for k, e in enumerate(e2) for s in e}
-    cost = np.zeros(n1 + n2)
+    offs, n = [], 0
+    for e in es:
+        offs.append(n)
+        n += len(e)
+    idx = [{s: k for k, ev in enumerate(e) for s in ev} for e in es]
+    cost = np.zeros(n)
     A, b = [], []
     for s in range(S):
-        cost[idx1[s]] += p[s] * w1
-        cost[n1 + idx2[s]] += p[s] * w2
-        row = np.zeros(n1 + n2)
-        row[idx1[s]] = -1
-        row[n1 + idx2[s]] = -1
+        row = np.zeros(n)
+        for i in range(len(es)):
+            cost[offs[i] + idx[i][s]] += p[s] * ws[i]
+            row[offs[i] + idx[i][s]] = -1
         A.append(row)
         b.append(-u[s])
-    res = lp(cost, A_ub=np.array(A), b_ub=np.array(b), bounds=[(0, None)] * (n1 + n2))
+    res = lp(cost, A_ub=np.array(A), b_ub=np.array(b), bounds=[(0, None)] * n)
     return float(res.fun)
 
 
@@ -849,13 +876,16 @@ def _check_solved(case, it, w, viol, stats, probe, props):
 
     if case['kind'] == 'mix':
         ref_opt = mix_reference(case)
+        names = case.get('names', ['x1', 'x2'])
+        parts = _mix_parts(case)
+        ws = ex['w']
         stats['checks_c13'] += 1
         if not close(out['obj'], ref_opt, tol):
-            viol('C13', 'mix-optimum', 'optimum %.9g but the reference LP over partitions %s / %s gives %.9g'
-                 % (out['obj'], ex['p1'], ex['p2'], ref_opt))
+            viol('C13', 'mix-optimum', 'optimum %.9g but the reference LP over partitions %s gives %.9g'
+                 % (out['obj'], ' / '.join(str(e) for e in parts), ref_opt))
             return
         # non-anticipativity invariant and labelled read-back of each decision
-        for nm, part in (('x1', ex['p1']), ('x2', ex['p2'])):
+        for nm, part in zip(names, parts):
             rows, idx = _call_rows(it.env[nm], S)
             stats['checks_c13'] += 1
             if idx is not None:
@@ -869,38 +899,39 @@ def _check_solved(case, it, w, viol, stats, probe, props):
                     viol('C13', 'nonanticipativity', '%s() differs inside declared event %s: %s'
                          % (nm, [labels[s] for s in e], vals))
                     return
-        # the combined expression is adaptive to the common refinement: (x1+x2)() gives per-scenario values
+        # the combined expression is adaptive to the common refinement: (x1+x2[+x3])() gives per-scenario values
         stats['checks_c13'] += 1
+        if len(names) > 2:
+            probe('mix_three_operands')
         try:
-            c1, _ = _call_rows(it.env['x1'], S)
-            c2, _ = _call_rows(it.env['x2'], S)
-            both = (it.env['x1'] + it.env['x2'])()
+            cs = [_call_rows(it.env[nm], S)[0] for nm in names]
+            tot_e = it.env[names[0]] + it.env[names[1]]
+            for nm in names[2:]:
+                tot_e = tot_e + it.env[nm]
+            both = tot_e()
             cb, _ = _series_to_rows(both, S)
             for s in range(S):
-                if abs(float(cb[s][0]) - float(c1[s][0]) - float(c2[s][0])) > 1e-7:
-                    viol('C13', 'mix-expression-refinement', '(x1 + x2)() = %.9g at label %r but x1() + x2() = %.9g there '
-                         '(partitions %s / %s)' % (cb[s][0], labels[s], c1[s][0] + c2[s][0], ex['p1'], ex['p2']))
+                want = sum(float(c[s][0]) for c in cs)
+                if abs(float(cb[s][0]) - want) > 1e-7:
+                    viol('C13', 'mix-expression-refinement', '(%s)() = %.9g at label %r but the sum of the single calls is %.9g there '
+                         '(partitions %s)' % (' + '.join(names), cb[s][0], labels[s], want, ' / '.join(str(e) for e in parts)))
                     return
         except Exception as e:
-            viol('C12', 'readback-raises', '(x1 + x2)() raised %r' % (e,), exc=type(e).__name__)
+            viol('C12', 'readback-raises', '(%s)() raised %r' % (' + '.join(names), e), exc=type(e).__name__)
             return
-        # (x1+x2)() per scenario must satisfy x1+x2 >= u_s and reproduce the objective
+        # the per-scenario values must satisfy sum x_i >= u_s and reproduce the objective
         stats['checks_c12'] += 1
         try:
-            w1, w2 = ex['w']
-            a = it.env['x1'].get()
-            b = it.env['x2'].get()
-            r1, _ = _series_to_rows(a, S)
-            r2, _ = _series_to_rows(b, S)
-            tot = sum(case['p'][s] * (w1 * r1[s][0] + w2 * r2[s][0]) for s in range(S))
+            rs_ = [_series_to_rows(it.env[nm].get(), S)[0] for nm in names]
+            tot = sum(case['p'][s] * sum(w_ * r_[s][0] for w_, r_ in zip(ws, rs_)) for s in range(S))
             if not close(tot, out['obj'], 1e-5):
-                viol('C12', 'mix-readback-objective', 'sum_s p_s (w1 x1(s) + w2 x2(s)) from labelled get() = %.9g, objective %.9g'
+                viol('C12', 'mix-readback-objective', 'sum_s p_s sum_i w_i x_i(s) from labelled get() = %.9g, objective %.9g'
                      % (tot, out['obj']), tags=['labelled_readback'])
                 return
             for s in range(S):
-                if r1[s][0] + r2[s][0] < case['u'][s] - 1e-5:
-                    viol('C12', 'mix-readback-feasibility', 'label %r: x1+x2 = %.9g < u_s = %.9g from labelled get()'
-                         % (labels[s], r1[s][0] + r2[s][0], case['u'][s]), tags=['labelled_readback'])
+                if sum(r_[s][0] for r_ in rs_) < case['u'][s] - 1e-5:
+                    viol('C12', 'mix-readback-feasibility', 'label %r: %s = %.9g < u_s = %.9g from labelled get()'
+                         % (labels[s], ' + '.join(names), sum(r_[s][0] for r_ in rs_), case['u'][s]), tags=['labelled_readback'])
                     return
         except Exception as e:
             viol('C12', 'readback-raises', 'get() raised %r after an optimal solve' % (e,), exc=type(e).__name__)
